@@ -639,7 +639,7 @@ def run(ctx, V):
         workflows=[dict(name=r["name"], inputs=r["inputs"], levels=r["snapshot"]["levels"], url=r["snapshot"]["url"],
                         tiles=len(r["snapshot"]["files"])) for r in recs],
         tiles_checked=n_tiles, histories=len(hists), history_calls=n_calls,
-        exhaustive="all histories over {plain, override} up to the stated length",
+        exhaustive_part="all histories over {plain, override} up to the stated length; injectivity over all positions to depth 3",
         not_covered=["HiPS workflow (Java + network)", "WWTL workflow and multi-TAN CLI (same Builder code path as tile-study / tile_fits TAN)"],
         samples=[dict(path=pcs[0]["path"], url=pcs[0]["url"], pos=pcs[0]["pos"]),
                  dict(workflow=recs[0]["name"], files=recs[0]["snapshot"]["files"][:6]),
